@@ -135,6 +135,10 @@ func (P) Exec(line string) string {
 		return "bad-op"
 	}
 	switch f[1] {
+	case "chain":
+		return execChain(f[2:])
+	case "par":
+		return execPar(f[2])
 	case "vlq":
 		n := u64(f[2])
 		return fmt.Sprintf("%s %d", hex.EncodeToString(blockchain.VerifPutVLQ(n)), blockchain.VerifSerializeSizeVLQ(n))
@@ -532,7 +536,7 @@ func encVLQBig(n0 *big.Int) []byte {
 // malformed emits a family of damaged variants of a valid encoding under the given decoder op.
 func malformed(g *core.Gen, r *core.Rand, op string, enc []byte, suffix string, full bool) {
 	emit := func(class string, b []byte) {
-		g.Case(op+"-"+class, len(b) > 0, fmt.Sprintf("C15 %s %s%s", op, hexTok(b), suffix))
+		rec(g, op+"-"+class, len(b) > 0, fmt.Sprintf("C15 %s %s%s", op, hexTok(b), suffix))
 	}
 	emit("valid", enc)
 	if full {
@@ -607,8 +611,17 @@ func hostileScripts(r *core.Rand) [][]byte {
 	return out
 }
 
+// recorded keeps the lines generated so far (the concurrent class re-runs a sample of them).
+var recorded []string
+
+func rec(g *core.Gen, class string, nontrivial bool, line string) {
+	recorded = append(recorded, line)
+	g.Case(class, nontrivial, line)
+}
+
 func (P) Generate(g *core.Gen) {
 	r := g.R
+	recorded = recorded[:0]
 
 	// ---- VLQ
 	var vlqVals []uint64
@@ -631,16 +644,16 @@ func (P) Generate(g *core.Gen) {
 		vlqVals = append(vlqVals, v)
 	}
 	for _, v := range vlqVals {
-		g.Case("vlq", v > 127, fmt.Sprintf("C15 vlq %d", v))
+		rec(g, "vlq", v > 127, fmt.Sprintf("C15 vlq %d", v))
 		enc := vlqBytes(v)
-		g.Case("unvlq-valid", v > 127, "C15 unvlq "+hexTok(append(enc, r.Bytes(r.Intn(3))...)))
+		rec(g, "unvlq-valid", v > 127, "C15 unvlq "+hexTok(append(enc, r.Bytes(r.Intn(3))...)))
 		if len(enc) > 1 && r.Chance(1, 4) {
-			g.Case("unvlq-trunc", true, "C15 unvlq "+hexTok(enc[:r.Intn(len(enc))]))
+			rec(g, "unvlq-trunc", true, "C15 unvlq "+hexTok(enc[:r.Intn(len(enc))]))
 		}
 	}
 	for v := uint64(0); v < 200; v += 7 {
 		for extra := 0; extra < 3; extra++ {
-			g.Case("unvlq-overlong", true, "C15 unvlq "+hexTok(wrapVLQ(v, extra)))
+			rec(g, "unvlq-overlong", true, "C15 unvlq "+hexTok(wrapVLQ(v, extra)))
 		}
 	}
 	for i := 0; i < g.N(800, 30000); i++ {
@@ -653,7 +666,7 @@ func (P) Generate(g *core.Gen) {
 				b[len(b)-1] &= 0x7f
 			}
 		}
-		g.Case("unvlq-random", len(b) > 0, "C15 unvlq "+hexTok(b))
+		rec(g, "unvlq-random", len(b) > 0, "C15 unvlq "+hexTok(b))
 	}
 
 	// ---- amounts: every digit pattern k*10^e, k*10^e +- 1
@@ -663,8 +676,8 @@ func (P) Generate(g *core.Gen) {
 			return
 		}
 		seen[a] = true
-		g.Case("amtc-"+class, a != 0, fmt.Sprintf("C15 amtc %d", a))
-		g.Case("amtrt-"+class, a != 0, fmt.Sprintf("C15 amtrt %d", a))
+		rec(g, "amtc-"+class, a != 0, fmt.Sprintf("C15 amtc %d", a))
+		rec(g, "amtrt-"+class, a != 0, fmt.Sprintf("C15 amtrt %d", a))
 	}
 	p10 := new(big.Int)
 	for e := 0; e <= 19; e++ {
@@ -693,21 +706,21 @@ func (P) Generate(g *core.Gen) {
 		if r.Chance(1, 6) {
 			x = ^uint64(0) - uint64(r.Intn(40))
 		}
-		g.Case("amtd", x != 0, fmt.Sprintf("C15 amtd %d", x))
+		rec(g, "amtd", x != 0, fmt.Sprintf("C15 amtd %d", x))
 	}
 	for x := uint64(0); x < 120; x++ {
-		g.Case("amtd-small", x != 0, fmt.Sprintf("C15 amtd %d", x))
+		rec(g, "amtd-small", x != 0, fmt.Sprintf("C15 amtd %d", x))
 	}
 
 	// ---- scripts, txouts, utxo entries, stxos
 	for i := 0; i < g.N(1800, 20000); i++ {
 		t, cl := genTxo(r)
 		sh := hexTok(t.script)
-		g.Case("scr-"+cl, len(t.script) > 0, "C15 scr "+sh)
-		g.Case("scrrt-"+cl, len(t.script) > 0, "C15 scrrt "+sh)
-		g.Case("txo-"+cl, true, fmt.Sprintf("C15 txo %d %s", t.amount, sh))
-		g.Case("utxo-"+cl, true, fmt.Sprintf("C15 utxo %s %s", t, b01(r.Chance(1, 10))))
-		g.Case("stxo-"+cl, true, "C15 stxo "+t.String())
+		rec(g, "scr-"+cl, len(t.script) > 0, "C15 scr "+sh)
+		rec(g, "scrrt-"+cl, len(t.script) > 0, "C15 scrrt "+sh)
+		rec(g, "txo-"+cl, true, fmt.Sprintf("C15 txo %d %s", t.amount, sh))
+		rec(g, "utxo-"+cl, true, fmt.Sprintf("C15 utxo %s %s", t, b01(r.Chance(1, 10))))
+		rec(g, "stxo-"+cl, true, "C15 stxo "+t.String())
 		// decode what the real encoder produced, plus damaged variants
 		full := i%25 == 0
 		buf, ok := try(func() []byte { b, _ := blockchain.VerifPutCompressedTxOut(t.amount, t.script); return b })
@@ -729,21 +742,21 @@ func (P) Generate(g *core.Gen) {
 	for rep := 0; rep < g.N(1, 8); rep++ {
 		for _, hs := range hostileScripts(r) {
 			a := vlqBytes(blockchain.VerifCompressTxOutAmount(genAmount(r)))
-			g.Case("untxo-hostile", true, "C15 untxo "+hexTok(append(append([]byte{}, a...), hs...)))
+			rec(g, "untxo-hostile", true, "C15 untxo "+hexTok(append(append([]byte{}, a...), hs...)))
 			h := genHeight(r)
 			code := uint64(h)<<1 | uint64(r.Intn(2))
-			g.Case("unutxo-hostile", true, "C15 unutxo "+hexTok(bytes.Join([][]byte{vlqBytes(code), a, hs}, nil)))
+			rec(g, "unutxo-hostile", true, "C15 unutxo "+hexTok(bytes.Join([][]byte{vlqBytes(code), a, hs}, nil)))
 			pre := vlqBytes(code)
 			if h > 0 {
 				pre = append(pre, 0)
 			}
-			g.Case("unstxo-hostile", true, "C15 unstxo "+hexTok(bytes.Join([][]byte{pre, a, hs}, nil)))
+			rec(g, "unstxo-hostile", true, "C15 unstxo "+hexTok(bytes.Join([][]byte{pre, a, hs}, nil)))
 		}
 	}
 	for i := 0; i < g.N(1500, 40000); i++ {
 		b := r.Bytes(r.Intn(60))
 		op := []string{"untxo", "unutxo", "unstxo"}[r.Intn(3)]
-		g.Case(op+"-random", len(b) > 0, fmt.Sprintf("C15 %s %s", op, hexTok(b)))
+		rec(g, op+"-random", len(b) > 0, fmt.Sprintf("C15 %s %s", op, hexTok(b)))
 	}
 
 	// ---- spend journal
@@ -758,7 +771,7 @@ func (P) Generate(g *core.Gen) {
 			}
 			sl = append(sl, l[j].stxo())
 		}
-		g.Case("journal", n > 0, "C15 journal "+showTxos(l))
+		rec(g, "journal", n > 0, "C15 journal "+showTxos(l))
 		ser, ok := try(func() []byte { return blockchain.VerifSerializeSpendJournalEntry(sl) })
 		if !ok {
 			continue
@@ -791,11 +804,11 @@ func (P) Generate(g *core.Gen) {
 		}
 		malformed(g, r, "unjournal", ser, " "+sh, i%20 == 0 && len(ser) < 200)
 	}
-	g.Case("unjournal-empty", true, "C15 unjournal - 1")
-	g.Case("unjournal-empty", true, "C15 unjournal - 0,2")
-	g.Case("unjournal-empty", false, "C15 unjournal - -")
-	g.Case("unjournal-empty", false, "C15 unjournal - 0,0")
-	g.Case("unjournal-empty", true, "C15 unjournal 00 -")
+	rec(g, "unjournal-empty", true, "C15 unjournal - 1")
+	rec(g, "unjournal-empty", true, "C15 unjournal - 0,2")
+	rec(g, "unjournal-empty", false, "C15 unjournal - -")
+	rec(g, "unjournal-empty", false, "C15 unjournal - 0,0")
+	rec(g, "unjournal-empty", true, "C15 unjournal 00 -")
 
 	// ---- best chain state
 	for i := 0; i < g.N(400, 8000); i++ {
@@ -813,7 +826,7 @@ func (P) Generate(g *core.Gen) {
 		ht := r.U32() >> uint(r.Intn(32))
 		tt := r.U64() >> uint(r.Intn(64))
 		hash := r.Bytes(32)
-		g.Case("best", true, fmt.Sprintf("C15 best %s %d %d %s", hex.EncodeToString(hash), ht, tt, ws.Text(16)))
+		rec(g, "best", true, fmt.Sprintf("C15 best %s %d %d %s", hex.EncodeToString(hash), ht, tt, ws.Text(16)))
 		var h chainhash.Hash
 		copy(h[:], hash)
 		ser, ok := try(func() []byte { return blockchain.VerifSerializeBestChainState(h, ht, tt, ws) })
@@ -825,7 +838,7 @@ func (P) Generate(g *core.Gen) {
 		c := append([]byte{}, ser...)
 		wl := []uint32{0, 1, uint32(len(ser) - 48), uint32(len(ser) - 47), uint32(len(ser) - 49), 0xffffffff, 0xffffffd0, 0xffffffcf, 0xffffffd1, 0x80000000, 1 << 24}[r.Intn(11)]
 		c[44], c[45], c[46], c[47] = byte(wl), byte(wl>>8), byte(wl>>16), byte(wl>>24)
-		g.Case("unbest-lenlie", true, "C15 unbest "+hexTok(c))
+		rec(g, "unbest-lenlie", true, "C15 unbest "+hexTok(c))
 	}
 
 	// ---- block index rows
@@ -841,7 +854,7 @@ func (P) Generate(g *core.Gen) {
 		}
 		line := fmt.Sprintf("C15 row %d %s %s %d %d %d %d %d", ver, hex.EncodeToString(prev), hex.EncodeToString(r.Bytes(32)),
 			ts, r.U32(), r.U32(), r.Intn(256), r.U32()>>uint(r.Intn(32)))
-		g.Case("row", true, line)
+		rec(g, "row", true, line)
 		out := func() (o string) {
 			defer func() {
 				if recover() != nil {
@@ -855,15 +868,46 @@ func (P) Generate(g *core.Gen) {
 		}
 	}
 	for n := 0; n < 84; n++ {
-		g.Case("unrow-len", n > 0, "C15 unrow "+hexTok(r.Bytes(n)))
+		rec(g, "unrow-len", n > 0, "C15 unrow "+hexTok(r.Bytes(n)))
+	}
+
+	// ---- end to end: real chain, real database, flush, reopen with another cache size, exported readers
+	var chainLines []string
+	for i := 0; i < g.N(20, 1200); i++ {
+		l := genChainLine(r)
+		chainLines = append(chainLines, l)
+		rec(g, "chain", true, l)
+	}
+
+	// ---- independent instances concurrently (no hidden shared state): 8..12 sub-lines per case, taken
+	// from what was generated so far (every op incl. chains with their own databases)
+	{
+		n := len(recorded)
+		for i := 0; i < g.N(30, 1500); i++ {
+			k := 8 + r.Intn(5)
+			subs := make([]string, 0, k)
+			for len(subs) < k {
+				var l string
+				if r.Chance(1, 20) && len(chainLines) > 0 {
+					l = chainLines[r.Intn(len(chainLines))]
+				} else {
+					l = recorded[r.Intn(n)]
+				}
+				if len(l) > 4000 || strings.HasPrefix(l, "C15 par") || strings.HasPrefix(l, "C15 amtrt") {
+					continue
+				}
+				subs = append(subs, strings.ReplaceAll(strings.TrimPrefix(l, "C15 "), " ", "~"))
+			}
+			rec(g, "par", true, "C15 par "+strings.Join(subs, "|"))
+		}
 	}
 
 	// ---- legacy v1 block index rows (block index migration)
 	for n := 0; n < 100; n++ {
-		g.Case("v1row-len", n > 0, "C15 v1row "+hexTok(r.Bytes(n)))
+		rec(g, "v1row-len", n > 0, "C15 v1row "+hexTok(r.Bytes(n)))
 	}
 	for i := 0; i < g.N(100, 3000); i++ {
-		g.Case("v1row", true, "C15 v1row "+hexTok(r.Bytes(92+r.Intn(20))))
+		rec(g, "v1row", true, "C15 v1row "+hexTok(r.Bytes(92+r.Intn(20))))
 	}
 
 	// ---- outpoint keys (utxo set database key: hash || VLQ(index))
@@ -872,7 +916,7 @@ func (P) Generate(g *core.Gen) {
 		if r.Chance(1, 4) {
 			idx = uint32(r.Pick(0, 127, 128, 16511, 16512, 2113663, 2113664, 270549119, 270549120, 0xffffffff))
 		}
-		g.Case("opkey", true, fmt.Sprintf("C15 opkey %s %d", hex.EncodeToString(r.Bytes(32)), idx))
+		rec(g, "opkey", true, fmt.Sprintf("C15 opkey %s %d", hex.EncodeToString(r.Bytes(32)), idx))
 	}
 
 	// ---- legacy v0 utxo entries (upgrade.go)
@@ -885,15 +929,15 @@ func (P) Generate(g *core.Gen) {
 		if pre[2] == 0x00 || pre[2] == 0x0a {
 			pre = append(pre, byte(1<<uint(r.Intn(8))))
 		}
-		g.Case("unv0-hostile", true, "C15 unv0 "+hexTok(bytes.Join([][]byte{pre, {0x05}, hs}, nil)))
+		rec(g, "unv0-hostile", true, "C15 unv0 "+hexTok(bytes.Join([][]byte{pre, {0x05}, hs}, nil)))
 	}
 	for _, code := range []uint64{0, 1, 6, 7, 8, 0x0a, 0x10, 1 << 20, 1 << 34, 1<<35 + 2, 1<<64 - 1, 1<<64 - 8, 1<<63 + 2} {
 		for _, tail := range []int{0, 1, 2, 40} {
-			g.Case("unv0-code", true, "C15 unv0 "+hexTok(bytes.Join([][]byte{{0x01, 0x05}, vlqBytes(code), r.Bytes(tail)}, nil)))
+			rec(g, "unv0-code", true, "C15 unv0 "+hexTok(bytes.Join([][]byte{{0x01, 0x05}, vlqBytes(code), r.Bytes(tail)}, nil)))
 		}
 	}
 	for i := 0; i < g.N(500, 15000); i++ {
-		g.Case("unv0-random", true, "C15 unv0 "+hexTok(r.Bytes(1+r.Intn(60))))
+		rec(g, "unv0-random", true, "C15 unv0 "+hexTok(r.Bytes(1+r.Intn(60))))
 	}
 }
 
